@@ -24,7 +24,11 @@ def retry_table(src, fname):
     body = fn_body(src, "is_retryable_error")
     flat = " ".join(body.split())
     m = re.fullmatch(r"match (\w+) \{(.*)\}", flat)
-    if not m: raise ExtractError(f"{fname}: is_retryable_error is not a single `match`")
+    if not m:
+        # statements around the `match` (an early `return true`, a pre-computed flag …): what they let
+        # through is not known, so every non-transport error counts as retried (pessimistic)
+        kinds = [k for k in re.findall(r"ErrorKind::(\w+)", flat) if k in KINDS]
+        return list(dict.fromkeys(kinds)), True, True
     arms = m.group(2)
     io = re.search(r"RepeError::Io\( ?(\w+) ?\) => matches!\( ?(\w+)\.kind\(\) ?, ?([^()]*?),? ?\) ?,", arms)
     if not io or io.group(1) != io.group(2): raise ExtractError(f"{fname}: Io arm is not `matches!(e.kind(), …)`")
@@ -58,15 +62,34 @@ def retry_table(src, fname):
     return kinds, server, other
 
 
+def strip_nested(block):
+    """`block` = `{ … }`: its text with every nested `{ … }` removed (what runs unconditionally)."""
+    out, depth = [], 0
+    for ch in block[1:-1] if block.startswith("{") else block:
+        if ch == "{": depth += 1
+        elif ch == "}": depth -= 1
+        elif depth == 0: out.append(ch)
+    return "".join(out)
+
+
 def loop_form(src, fn, fname):
     body = fn_body(src, fn)
     flat = " ".join(body.split())
-    m = re.search(r"for (\w+) in 0 ?\.\.(=?) ?([\w\.]*max_attempts)\b", flat)
-    if not m: raise ExtractError(f"{fname}:{fn}: loop header `for attempt in 0..…max_attempts` not found")
+    # the bound: `for _ in 0..<max_attempts> {` with nothing added to it; a hoisted `let max_attempts = …max_attempts;` is fine
+    m = re.search(r"for (\w+) in 0 ?\.\.(=?) ?([\w\.]*max_attempts) ?\{", flat)
+    pessimistic = {"inclusive": True, "invalidateOnRetry": False, "breakOnNonRetry": False}
+    if not m:
+        # another kind of loop, or a bound that is not max_attempts itself: the number of attempts is not known
+        return pessimistic
+    if m.group(3) == "max_attempts" and not re.search(r"let max_attempts = [\w\.]*retry_policy\.max_attempts;", flat):
+        return pessimistic
     inclusive = m.group(2) == "="
-    if not re.search(r"let should_retry = is_retryable_error\(&\w+\);", flat): raise ExtractError(f"{fname}:{fn}: should_retry")
-    i = body.find("if should_retry")
-    if i < 0: raise ExtractError(f"{fname}:{fn}: `if should_retry`")
+    fm = re.search(r"let (\w+) = is_retryable_error\(&\w+\);", flat)
+    if not fm: raise ExtractError(f"{fname}:{fn}: no `let <flag> = is_retryable_error(&err);`")
+    flag = fm.group(1)
+    im = re.search(r"if " + flag + r"\b", body)
+    if not im: raise ExtractError(f"{fname}:{fn}: `if {flag}`")
+    i = im.start()
     b0 = body.find("{", i); b1 = match_brace(body, b0)
     then_block = body[b0:b1]
     tail = body[b1:]
@@ -76,27 +99,52 @@ def loop_form(src, fn, fname):
         e0 = b1 + em.end() - 1; e1 = match_brace(body, e0)
         else_block = body[e0:e1]
     outside = body[:b0] + body[b1:]
-    inv_in = "invalidate_client(" in then_block
+    # invalidation must be unconditional in the retryable branch, and before anything that leaves it
+    top = strip_nested(then_block.strip())
+    inv_in = "invalidate_client(" in top
+    if inv_in:
+        before = then_block[:then_block.find("invalidate_client(")]
+        if re.search(r"\b(continue|break|return)\b", before): inv_in = False
     inv_out = "invalidate_client(" in outside
     if inv_out: raise ExtractError(f"{fname}:{fn}: invalidate_client outside the retryable branch")
     if not re.search(r"Ok\(\w+\) => \{ return RemoteResult", flat): raise ExtractError(f"{fname}:{fn}: Ok arm does not return")
-    return {"inclusive": inclusive, "invalidateOnRetry": inv_in, "breakOnNonRetry": bool(re.search(r"\bbreak\b", else_block))}
+    # anything that re-enters the loop without counting (`continue` in the retryable branch is fine only after the invalidation)
+    return {"inclusive": inclusive, "invalidateOnRetry": inv_in, "breakOnNonRetry": bool(re.search(r"\bbreak\b", strip_nested(else_block.strip()) if else_block else ""))}
 
 
 def filter_form(src, fname):
     flat = " ".join(fn_body(src, "snapshot_target_nodes").split())
-    if re.search(r"\.filter\(\|(\w+)\| tag_set\.is_subset\(&\1\.tags\)\)", flat): return "requestedSubsetOfNode"
-    if re.search(r"\.filter\(\|(\w+)\| \1\.tags\.is_subset\(&tag_set\)\)", flat): return "nodeSubsetOfRequested"
-    if ".filter(" not in flat: return "noFilter"
-    raise ExtractError(f"{fname}: snapshot_target_nodes filter not recognised")
+    if ".filter(" not in flat and "retain(" not in flat: return "noFilter"
+    # exactly one filter and nothing else that drops or limits nodes; otherwise the selection is not
+    # the tag test alone: reported as `noFilter` (pessimistic: `broadcast_targets` breaks)
+    if flat.count(".filter(") != 1 or re.search(r"\.(take|skip|step_by|take_while|skip_while|filter_map|retain|truncate)\(", flat):
+        return "noFilter"
+    sm = re.search(r"let (\w+): (?:BTreeSet|HashSet|std::collections::\w+)<String> = tags\.iter\(\)\.map\(\|(\w+)\| \2\.as_ref\(\)\.to_string\(\)\)\.collect\(\);", flat)
+    if not sm: return "noFilter"   # the requested set is not the caller's tags as given
+    ts = sm.group(1)
+    if re.search(r"\.filter\(\|(\w+)\| " + ts + r"\.is_subset\(&\1\.tags\)\)", flat): return "requestedSubsetOfNode"
+    if re.search(r"\.filter\(\|(\w+)\| \1\.tags\.is_superset\(&" + ts + r"\)\)", flat): return "requestedSubsetOfNode"
+    if re.search(r"\.filter\(\|(\w+)\| " + ts + r"\.iter\(\)\.all\(\|(\w+)\| \1\.tags\.contains\(\2\)\)\)", flat): return "requestedSubsetOfNode"
+    if re.search(r"\.filter\(\|(\w+)\| \1\.tags\.is_subset\(&" + ts + r"\)\)", flat): return "nodeSubsetOfRequested"
+    if re.search(r"\.filter\(\|(\w+)\| " + ts + r"\.is_superset\(&\1\.tags\)\)", flat): return "nodeSubsetOfRequested"
+    return "noFilter"
 
 
 def fan_out(src, fname):
-    flat = " ".join(fn_body(src, "broadcast_json").split())
+    body = fn_body(src, "broadcast_json")
+    flat = " ".join(body.split())
     m = re.search(r"let (\w+) = self\.(\w+)\(([^)]*)\)(?:\.await)?;", flat)
     if not m: raise ExtractError(f"{fname}: broadcast_json source of nodes")
-    if not re.search(r"for \w+ in " + m.group(1) + r"\b", flat): raise ExtractError(f"{fname}: broadcast_json loop")
-    if not re.search(r"\.call_json_with_retry\(", flat): raise ExtractError(f"{fname}: broadcast_json does not call the retry loop")
+    # the loop runs over exactly that list (no take/skip/filter on it) …
+    lm = re.search(r"for \w+ in " + m.group(1) + r" \{", body)
+    if not lm: return False
+    # … and every iteration spawns the call: nothing skips or leaves the loop
+    b0 = body.find("{", lm.start()); b1 = match_brace(body, b0)
+    loop_body = body[b0:b1]
+    if not re.search(r"\.call_json_with_retry\(", loop_body): return False
+    spawn_at = re.search(r"\b(?:thread::spawn|tokio::spawn|spawn)\(", loop_body)
+    head = loop_body[:spawn_at.start()] if spawn_at else loop_body
+    if re.search(r"\b(continue|break|return|if|match)\b", head): return False
     return m.group(2) == "snapshot_target_nodes" and m.group(3).strip() == "tags"
 
 
@@ -150,6 +198,25 @@ def node_timeout(src, fn, fname):
     return bool(calls) and all(c.split(",")[-1].strip() == t for c in calls)
 
 
+def guards(src, fleet_src, fname):
+    """What the constructors refuse, so that the hypotheses of the theorems hold for every fleet that
+    exists: `max_attempts >= 1`, node names distinct at construction and at `add_node`. A guard that is
+    not found in a known form is reported as absent (pessimistic: the theorem about the guards breaks
+    and the `opts` cases of the harness say whether the constructor still refuses)."""
+    vf = " ".join(fn_body(fleet_src, "validate_fleet_options").split())
+    validates = bool(re.search(r"if \w+\.retry_policy\.max_attempts (?:< 1|== 0|<= 0) \{ return Err\(", vf))
+    wo = " ".join(fn_body(src, "with_options").split())
+    ok_at = wo.find("Ok(Self")
+    call_at = wo.find("validate_fleet_options(&options)?;")
+    max_ok = validates and 0 <= call_at < ok_at
+    ins = re.search(r"if !(\w+)\.insert\(config\.name\.clone\(\)\) \{ return Err\(", wo)
+    distinct_new = bool(ins) and 0 <= ins.start() < ok_at and bool(re.search(r"let mut " + (ins.group(1) if ins else "names") + r" = HashSet::new\(\);", wo))
+    an = " ".join(fn_body(src, "add_node").split())
+    ck = re.search(r"if (\w+)\.contains_key\(&config\.name\) \{ return Err\(", an)
+    distinct_add = bool(ck) and ck.start() < an.find(".insert(")
+    return {"maxAttemptsValidated": max_ok, "namesDistinctAtConstruction": distinct_new, "namesDistinctAtAdd": distinct_add}
+
+
 def extract():
     facts = {}
     facts["deadKinds"] = dead_kinds("src/client.rs")
@@ -170,6 +237,8 @@ def extract():
         facts[nm("nodeTimeout")] = node_timeout(src, "call_json_with_retry", path) and node_timeout(src, "call_message_with_retry", path)
         facts[nm("filter")] = filter_form(src, path)
         facts[nm("fanOutOverTargets")] = fan_out(src, path)
+        for gk, gv in guards(src, test_mod_cut(strip(read("src/fleet.rs"))), path).items():
+            facts[nm(gk)] = gv
         facts.setdefault("where", {})[path] = {"is_retryable_error": line_of(raw, "fn is_retryable_error"),
                                                 "call_json_with_retry": line_of(raw, "fn call_json_with_retry"),
                                                 "call_message_with_retry": line_of(raw, "fn call_message_with_retry"),
@@ -203,6 +272,12 @@ def render(f):
          f"def asyncFilter : FilterForm := .{f['asyncFilter']}",
          f"def fanOutOverTargets : Bool := {b(f['fanOutOverTargets'])}",
          f"def asyncFanOutOverTargets : Bool := {b(f['asyncFanOutOverTargets'])}",
+         f"def maxAttemptsValidated : Bool := {b(f['maxAttemptsValidated'])}",
+         f"def asyncMaxAttemptsValidated : Bool := {b(f['asyncMaxAttemptsValidated'])}",
+         f"def namesDistinctAtConstruction : Bool := {b(f['namesDistinctAtConstruction'])}",
+         f"def asyncNamesDistinctAtConstruction : Bool := {b(f['asyncNamesDistinctAtConstruction'])}",
+         f"def namesDistinctAtAdd : Bool := {b(f['namesDistinctAtAdd'])}",
+         f"def asyncNamesDistinctAtAdd : Bool := {b(f['asyncNamesDistinctAtAdd'])}",
          f"def deadKinds : List IoKind := {kinds(f['deadKinds'])}",
          f"def asyncDeadKinds : List IoKind := {kinds(f['asyncDeadKinds'])}",
          "def refusalKind : Option IoKind := " + ("none" if f['refusalKind'] is None else f"some .{KINDS[f['refusalKind']]}"),
